@@ -1244,3 +1244,5 @@ func vMarshalRoundTrip(v interface{}, out interface{}) bool {
 // natively the hash / canonicaliser really used are checked by verifying the signature (vSignatureCovers)
 func vDigestHashIs(k int, h crypto.Hash) bool            { return true }
 func vDigestCanonIs(k int, c dsig.Canonicalizer) bool   { return true }
+
+func vScreenRejections() int { return 0 }
